@@ -4,7 +4,7 @@ CONSTANTS
   Member = {"m1", "m2", "m3"}
   Stranger = {"x1"}
   TSet = {2}
-  MaxSig = 10
+  MaxSig = 16
   MaxSerial = 48
   MaxDESet = {2}
   MaxAttSet = {2}
@@ -13,12 +13,12 @@ CONSTANTS
   KSet = {1}
   PreSet = {0}
   PostSet = {0}
-  TransOn = FALSE
+  TransOn = TRUE
   TraceFile = "trace.ndjson"
-  Checked = {"count", "sig", "att", "exps", "pend", "tssAct", "ownAct", "cool", "mapped", "nSucc", "nFail"}
-  Owned = {"Request.create", "SubmitSig", "Activate", "EndBlock"}
+  Checked = {"count", "sig", "att", "exps", "pend", "tssAct", "ownAct", "cool", "mapped", "nSucc", "nFail", "tr"}
+  Owned = {"Request.create", "SubmitSig", "Activate", "Transition", "EndBlock"}
 SPECIFICATION TraceSpec
 INVARIANTS TInvC10 TraceBoundOK
-PROPERTIES TStatus TAttempt TNoEarlyTimeout TExactTimeout TNewAttempt TSuccess TTimeout TPenalty TSigned TCallback
+PROPERTIES TStatus TAttempt TNoEarlyTimeout TExactTimeout TNewAttempt TSuccess TTimeout TPenalty TSigned TCallback TTransitionStep
 POSTCONDITION TraceAccepted
 CHECK_DEADLOCK FALSE
